@@ -882,7 +882,9 @@ func GenCommon(t *rapid.T) Case {
 }
 
 var unitComponents = []string{"B", "MB", "bytes", "B", "MB", "bytes", "ns", "sec", "op", "s", "KB", "GB", "b", "Bytes", "byte", "BB", "MBs", "mB", "Bs",
-	"allocs", "x", "µs", "MiB", "bytesx", "B2", "1", "Bytes", "kB", "BYTES", "M", "req"}
+	"allocs", "x", "µs", "MiB", "bytesx", "B2", "1", "Bytes", "kB", "BYTES", "M", "req",
+	// letters whose UTF-8 encoding contains the bytes 0x85/0xA0 (Latin-1 NEL/NBSP) glued to a bytes spelling, and real Unicode separators
+	"àB", "ÅMB", "Πbytes", "内B", "†B", "Bà", "éB", "àbytes", "B\u00a0", "x\u00a0B", "x\u0085MB", "\u2003bytes"}
 var unitSeparators = []string{"/", "/", "/", "*", "*", "-", "-", " ", "\t", "//", "*/", "/*", " / ", " * ", " ", " ", "\n", "/-", "-/", "*-", "-*", "/ ", " /"}
 
 func GenClassOf(t *rapid.T) Case {
